@@ -604,6 +604,40 @@ def norm(e):
     return e
 
 
+# ----------------------------------------------------------------------------- evaluation of closed integer expressions
+_W = {"u8": 8, "u16": 16, "u32": 32, "u64": 64, "usize": 64, "u128": 128, "i8": 8, "i16": 16, "i32": 32, "i64": 64, "isize": 64}
+
+
+def eval_int(e, args):
+    """value of a reconstructed pure integer expression for given argument values {name: int} (None if it contains anything but
+    constants, arguments, casts and integer operators).  Used to compare a bit-field extraction with its specification over the
+    whole (finite) domain of its argument instead of matching how it is spelled."""
+    k = e[0]
+    if k in ("const", "named"):
+        return e[2] if isinstance(e[2], int) and not isinstance(e[2], bool) else None
+    if k == "arg":
+        return args.get(e[2])
+    if k == "cast":
+        v = eval_int(e[1], args)
+        if v is None:
+            return None
+        w = _W.get(str(e[3]))
+        return v & ((1 << w) - 1) if w else None
+    if k == "bin":
+        a, b = eval_int(e[2], args), eval_int(e[3], args)
+        if a is None or b is None:
+            return None
+        op = _OVF.get(e[1], e[1])
+        try:
+            return {"BitAnd": lambda: a & b, "BitOr": lambda: a | b, "BitXor": lambda: a ^ b, "Shl": lambda: a << b if 0 <= b < 128 else None,
+                    "Shr": lambda: a >> b if 0 <= b < 128 else None, "Add": lambda: a + b, "Sub": lambda: a - b if a >= b else None, "Mul": lambda: a * b}[op]()
+        except KeyError:
+            return None
+    if k == "field" and e[2] == "0":
+        return eval_int(e[1], args)
+    return None
+
+
 # ----------------------------------------------------------------------------- purity-aware canonical form
 
 PURE_CALLS = re.compile(r"time::OffsetDateTime::(year|month|day|hour|minute|second)$|::len$|::is_empty$|::is_ascii$|"
